@@ -553,7 +553,8 @@ def roundtrip(kind, obj, deps, maxline, fetch, feats=(), **desc):
             report('known:escaped-apostrophe-dropped', where='embedded instance', diff=short(rest[0]), **desc)
             rest = rest2
     if rest and 'null-qualifier' in feats:
-        rest2 = [d for d in rest if not (d[1] == 'null-mismatch' and d[2] is None and d[0].endswith('/value') and '/qualifier:' in d[0])]
+        rest2 = [d for d in rest if not (d[1] == 'null-mismatch' and d[2] is None and d[0].endswith('/value') and
+                                         '/qualifier:' in d[0])]
         if len(rest2) < len(rest):
             report('known:qualifier-null-value-replaced-by-default', diff=short(rest[0]), **desc)
             rest = rest2
